@@ -72,3 +72,77 @@ def _strip(node):
     if body and isinstance(body[0], ast.Expr) and isinstance(body[0].value, ast.Constant) and isinstance(body[0].value.value, str):
         body = body[1:]
     return [ast.dump(s) for s in body]
+
+
+_NF_CACHE = {}
+
+
+def port_nf(model, name, module=PORT_MOD, prune=True):
+    """Normal form ('fn', effects, value) of a top-level function of a repo module (cached per model digest)."""
+    key = (model.digest, module, name, prune)
+    if key in _NF_CACHE:
+        return _NF_CACHE[key]
+    pm = model.module(module)
+    funcs = toplevel_funcs(pm.tree)
+    if name not in funcs:
+        raise AnalysisError('anchor vanished: %s:%s' % (module, name))
+    known = set(funcs)
+    # star-imported kernels are callable by bare name as well
+    for star in pm.stars:
+        if star in model.modules:
+            known |= set(toplevel_funcs(model.modules[star].tree))
+    nz = Normalizer(funcs[name], SHAPES, known, None, True, toplevel_names(pm.tree))
+    nz.prune_loops = prune
+    try:
+        t = nz.run()
+    except Unsupported as e:
+        raise AnalysisError('%s can no longer be normalised: %s' % (name, e))
+    _NF_CACHE[key] = (t, nz)
+    return t, nz
+
+
+def subst_params(term, args):
+    """Instantiate a normal form: ('p', i) -> args[i]; constant reads out of block arguments are folded."""
+    from .normal import is_num
+    if isinstance(term, tuple):
+        if term and term[0] == 'p' and len(term) == 2 and isinstance(term[1], int):
+            return args[term[1]] if term[1] < len(args) else term
+        t = tuple(subst_params(x, args) for x in term)
+        if t and t[0] == 'idx' and isinstance(t[1], tuple) and t[1] and t[1][0] == 'block' and all(is_num(i) for i in t[2]) \
+                and len(t[2]) == len(t[1][1]):
+            r = int(t[2][0][1])
+            c = int(t[2][1][1]) if len(t[2]) == 2 else 0
+            for (r0, r1, c0, c1, x) in t[1][2]:
+                if r0 <= r < r1 and c0 <= c < c1 and r1 - r0 == 1 and c1 - c0 == 1:
+                    return x
+        return t
+    return term
+
+
+def read_cell(model, term, r, c, depth=0):
+    """Element (r, c) of an array-valued normal form, looking through blocks, ite-free values and calls to
+    repo functions whose own normal form is a block.  Returns a scalar term or None when unknown."""
+    from .normal import is_num
+    if depth > 6 or not isinstance(term, tuple):
+        return None
+    if term[0] == 'block':
+        one_d = len(term[1]) == 1
+        for (r0, r1, c0, c1, t) in term[2]:
+            if r0 <= r < r1 and (one_d or c0 <= c < c1):
+                if r1 - r0 == 1 and (one_d or c1 - c0 == 1):
+                    return t
+                return read_cell(model, t, r - r0, 0 if one_d else c - c0, depth + 1)
+        return None
+    if term[0] == 'call' and isinstance(term[1], str) and not term[1].startswith('numpy.'):
+        try:
+            nf, _ = port_nf(model, term[1])
+        except AnalysisError:
+            return None
+        return read_cell(model, subst_params(nf[2], term[2]), r, c, depth + 1)
+    if term[0] == 'call' and term[1] in ('numpy.zeros',):
+        from .normal import num
+        return num(0)
+    if term[0] == 'call' and term[1] in ('numpy.eye', 'numpy.identity'):
+        from .normal import num
+        return num(1.0 if r == c else 0.0)
+    return None
